@@ -118,13 +118,15 @@ func init() {
 		ID: "C31",
 		Explanation: "Decides two clauses of C31 structurally. (SEQ-INDEX, 'without crashing') in every function of the decoder - whatever is reachable inside pkg/cli/term from the functions that read bytes or runes with a timeout - each index or slice operation on a slice or string is within range on every path: constant positions under a length established by dominating checks, by make/append arithmetic or by the branch taken into a join; variable positions by loop bounds or the len-k shape. (TIMEOUT-ALL, 'no escape sequence can make it block past its timeout') in the terminal reader every read of a byte or rune passes a timeout that is either the caller's own timeout parameter, or a package variable initialised to a positive duration; the only reads with a negative (blocking) timeout are the first read of an event, which no other read precedes on any path and which is not inside a loop. So after the first byte of an event every further read is bounded. Decoding correctness is value-level and not decided.",
 		NotCovered:  "that plain UTF-8 text decodes to exactly its characters; which key a sequence denotes; nil dereferences and map writes",
-		Rules:       []string{"TIMEOUT-ALL", "SEQ-INDEX: every index into a list built from terminal bytes is within its proven length"},
+		Rules:       []string{"TIMEOUT-ALL", "SEQ-INDEX: every index into a list built from terminal bytes is within its proven length", "RUNEERROR-WIDTH: a decoded rune counts as a decoding failure only together with the reported width"},
 		Patterns:    []string{"./pkg/cli/term"},
 		OnlyGOOS:    []string{"linux", "darwin", "freebsd"},
-		Run:         func(p *core.Program, r *core.Report) { runC31(p, r); runSeqIndex(p, r) },
+		Run:         func(p *core.Program, r *core.Report) { runC31(p, r); runSeqIndex(p, r); runRuneErrorWidth(p, r) },
 		MinCounts:   map[string]int{"TIMEOUT-ALL": 5, "SEQ-INDEX": 12},
 		Trusted:     trustedBase,
 		Controls: []core.Control{
+			{Name: "rune-error-without-width", Rule: "RUNEERROR-WIDTH", File: "pkg/cli/term/read_rune.go", Old: "\treturn r, nil\n}", New: "\tif d, _ := utf8.DecodeRuneInString(string(r)); d == utf8.RuneError {\n\t\treturn badRune, errInvalidRune\n\t}\n\treturn r, nil\n}\n\nvar errInvalidRune = seqError{\"invalid UTF-8\", \"\"}", Edits: [][2]string{{"import (\n\t\"time\"\n)", "import (\n\t\"time\"\n\t\"unicode/utf8\"\n)"}}, Fire: true, Want: "readRune"},
+			{Name: "benign-rune-error-with-width", Rule: "RUNEERROR-WIDTH", File: "pkg/cli/term/read_rune.go", Old: "\treturn r, nil\n}", New: "\tif d, n := utf8.DecodeRuneInString(string(r)); d == utf8.RuneError && n <= 1 {\n\t\treturn badRune, errInvalidRune\n\t}\n\treturn r, nil\n}\n\nvar errInvalidRune = seqError{\"invalid UTF-8\", \"\"}", Edits: [][2]string{{"import (\n\t\"time\"\n)", "import (\n\t\"time\"\n\t\"unicode/utf8\"\n)"}}, Fire: false},
 			{Name: "inner-read-blocks", Rule: "TIMEOUT-ALL", File: "pkg/cli/term/reader_unix.go", Old: "r, e := readRune(rd, keySeqTimeout)", New: "r, e := readRune(rd, -1)", Fire: true, Quick: true},
 			{Name: "continuation-bytes-block", Rule: "TIMEOUT-ALL", File: "pkg/cli/term/read_rune.go", Old: "b, err := rd.ReadByteWithTimeout(utf8SeqTimeout)", New: "b, err := rd.ReadByteWithTimeout(-1)", Fire: true},
 			{Name: "sgr-mouse-weaker-length-check", Rule: "SEQ-INDEX", File: "pkg/cli/term/reader_unix.go", Old: "\t\t\t\tif len(nums) != 3 {\n\t\t\t\t\tbadSeq(\"bad SGR mouse event\")", New: "\t\t\t\tif len(nums) < 2 {\n\t\t\t\t\tbadSeq(\"bad SGR mouse event\")", Fire: true, Want: "[2]", Quick: true},
@@ -338,7 +340,7 @@ func txKinds(fns []*ssa.Function) map[*ssa.Function]string {
 			}
 			if mu, ok := ins.(*ssa.MapUpdate); ok {
 				if ld, ok := core.IsLoad(mu.Map); ok {
-					if g, ok := ld.(*ssa.Global); ok && g.Name() == "initDB" {
+					if g, ok := ld.(*ssa.Global); ok && isTxInitTable(g) {
 						if h := fnOf(mu.Value); h != nil {
 							kinds[h] = "initDB"
 						}
@@ -613,7 +615,7 @@ func runC25(p *core.Program, r *core.Report) {
 				core.Instrs(a, func(ins ssa.Instruction) {
 					if rg, ok := ins.(*ssa.Range); ok {
 						if ld, ok := core.IsLoad(rg.X); ok {
-							if g, ok := ld.(*ssa.Global); ok && g.Name() == "initDB" {
+							if g, ok := ld.(*ssa.Global); ok && isTxInitTable(g) {
 								okInit = true
 							}
 						}
@@ -1283,4 +1285,31 @@ func runC31(p *core.Program, r *core.Report) {
 			r.Bad("TIMEOUT-ALL", construct, p.InsPos(rd.ins), "the timeout of this read is computed at run time (it is not a positive constant, a package variable initialised to a positive duration, or the caller's own timeout): a value that reaches zero or below means 'wait for ever', so an incomplete escape sequence can block the reader")
 		}
 	}
+}
+
+// isTxInitTable: a package-level table of pkg/store whose values are functions
+// that take a bbolt transaction (the bucket-creation table, whatever its name).
+func isTxInitTable(g *ssa.Global) bool {
+	if g.Pkg == nil || g.Pkg.Pkg.Path() != pkgStore {
+		return false
+	}
+	ptr, ok := g.Type().(*types.Pointer)
+	if !ok {
+		return false
+	}
+	var elem types.Type
+	switch t := ptr.Elem().Underlying().(type) {
+	case *types.Map:
+		elem = t.Elem()
+	case *types.Slice:
+		elem = t.Elem()
+	default:
+		return false
+	}
+	sig, ok := elem.Underlying().(*types.Signature)
+	if !ok || sig.Params().Len() != 1 {
+		return false
+	}
+	pt, ok := sig.Params().At(0).Type().(*types.Pointer)
+	return ok && core.IsNamed(pt.Elem(), pkgBolt, "Tx")
 }
